@@ -69,11 +69,13 @@ def parse_registry():
                     cur = {"name": v, "file": fn, "props": [], "tier": "quick", "timeout": 600,
                            "mem": 12, "functions": "", "bounds": "", "stubs": "none", "assumes": "none",
                            "cut": "", "flags": "", "kind": "core", "witness": "", "sub": "", "cfg": "",
-                           "replay": "playback"}
+                           "replay": "playback", "fs": "1024"}
                     reg.append(cur)
                 elif cur is not None:
                     if k == "props":
                         cur["props"] = v.split()
+                    elif k == "unwind_is_property":
+                        cur[k] = True
                     elif k in ("timeout", "mem"):
                         cur[k] = int(v)
                     elif k in cur and isinstance(cur[k], str) and cur[k] and k not in ("tier", "kind", "stubs", "assumes", "replay"):
@@ -92,13 +94,20 @@ class Scratch:
     def __init__(self, keep=False):
         self.dir = os.path.join(SCRATCH_BASE, "bigtools-verif.%d" % os.getpid())
         self.keep = keep
+        self.dev = bool(os.environ.get("VERIF_DEV"))
+        if self.dev:  # development only: persistent scratch, warm target dirs
+            self.dir = os.path.join(SCRATCH_BASE, "bigtools-verif.dev-" + os.environ["VERIF_DEV"])
+            self.keep = True
         self.lanes = {}
         self.lock = threading.Lock()
 
     def prepare(self, substitutions=None):
-        if os.path.exists(self.dir):
+        if os.path.exists(self.dir) and not self.dev:
             shutil.rmtree(self.dir)
-        os.makedirs(self.dir)
+        os.makedirs(self.dir, exist_ok=True)
+        for d in os.listdir(self.dir):
+            if d == "src-tree" or d.startswith("variant-") or d == "logs":
+                shutil.rmtree(os.path.join(self.dir, d))
         subprocess.run(["rsync", "-a", "--exclude", "target", "--exclude", ".git", "--exclude", "pybigtools",
                         "--exclude", "bench", "--exclude", "assets", REPO + "/", self.dir + "/src-tree/"], check=True)
         self.tree = os.path.join(self.dir, "src-tree")
@@ -124,6 +133,9 @@ class Scratch:
             with open(sp, "a") as f:
                 f.write('\n#[cfg(kani)]\n#[allow(unused, dead_code, non_snake_case)]\nmod %s {\n    include!("%s");\n}\n' % (modname, hp))
         lib = os.path.join(self.crate, "src/lib.rs")
+        # crate-level feature gate needed to name `A: Allocator` in the signature of the Vec::push stub
+        ls = open(lib).read()
+        open(lib, "w").write("#![cfg_attr(kani, feature(allocator_api))]\n" + ls)
         with open(lib, "a") as f:
             f.write("\n#[cfg(kani)]\nextern crate alloc;\n")
             f.write('#[cfg(kani)]\n#[allow(unused, dead_code)]\npub(crate) mod verif_support {\n    include!("%s");\n}\n'
@@ -162,7 +174,7 @@ def run_cmd(cmd, cwd, logpath, timeout, mem_gb, env=None):
     e.pop("RUSTUP_TOOLCHAIN", None)
     if env:
         e.update(env)
-    shcmd = "ulimit -v %d; exec %s" % (mem_gb * 1024 * 1024, " ".join("'%s'" % c.replace("'", "'\\''") for c in cmd))
+    shcmd = "ulimit -s unlimited 2>/dev/null; ulimit -v %d; exec %s" % (mem_gb * 1024 * 1024, " ".join("'%s'" % c.replace("'", "'\\''") for c in cmd))
     t0 = time.time()
     with open(logpath, "w") as lf:
         p = subprocess.Popen(["bash", "-c", shcmd], cwd=cwd, stdout=lf, stderr=subprocess.STDOUT, env=e,
@@ -209,15 +221,21 @@ def parse_kani_log(text):
     if m:
         r["verif_time_s"] = float(m.group(1))
     r["stubs_applied"] = re.findall(r"- Stub: (\S+)", text)
-    # per-check results
-    for m in re.finditer(r"Check \d+: (\S+)\n\s+- Status: (\w+)\n\s+- Description: \"(.*?)\"\n(?:\s+- Location: (.*)\n)?", text):
+    # per-check results; a cover! whose condition has `&&` is compiled into several cover checks with the
+    # same description: the witness is satisfied when ANY instance of a description is SATISFIED
+    cov = {}
+    for m in re.finditer(r"Check \d+: (.+)\n\s+- Status: (\w+)\n\s+- Description: \"(.*?)\"\n(?:\s+- Location: (.*)\n)?", text):
         name, status, desc, loc = m.group(1), m.group(2), m.group(3), m.group(4) or ""
         if status == "FAILURE":
             r["failed"].append({"check": name, "desc": desc, "loc": loc.strip()})
             if "unwinding assertion" in desc:
                 r["unwind_fail"] = True
-        if status in ("UNSATISFIABLE", "UNREACHABLE") and ".cover." in name:
-            r["unsat_covers"].append(desc)
+        if re.search(r"\.cover\.\d+$", name):
+            cov[desc] = cov.get(desc, False) or status == "SATISFIED"
+    if cov:
+        r["covers"] = len(cov)
+        r["covers_sat"] = sum(1 for v in cov.values() if v)
+        r["unsat_covers"] = [d for d, v in cov.items() if not v]
     return r
 
 
@@ -252,6 +270,9 @@ class Runner:
             cmd += ["-Z", "c-ffi", "--c-lib", os.path.join(HERE, "model", "verif_libc.c")]
         cmd += fl
         cmd += list(extra)
+        # CBMC is field-sensitive only for arrays <= 64 elements by default: every heap object larger than
+        # 64 bytes would lose constant propagation (measured: 6.5M -> 0.5M SAT variables). Must be last.
+        cmd += ["-Z", "unstable-options", "--cbmc-args", "--max-field-sensitivity-array-size", h["fs"]]
         return cmd
 
     def run(self, h):
@@ -329,11 +350,16 @@ class Runner:
         cmd = self.kani_cmd(h, lane, ["-Z", "concrete-playback", "--concrete-playback=print"])
         rc, to, wall = run_cmd(cmd, crate, logpath, h["timeout"] * 2, h["mem"], env)
         text = open(logpath, errors="replace").read()
-        m = re.search(r"```\s*(?:rust)?\n(.*?)```", text, re.S)
-        if not m:
-            out["replay"] = {"status": "no-playback-test", "why": "kani printed no concrete playback test"}
+        blocks = re.findall(r"```\s*(?:rust)?\n(.*?)```", text, re.S)
+        # kani prints one test per failed check AND per satisfied cover: keep the one for a failing check
+        descs = [fc["desc"].strip('"') for fc in out["failed_real"]]
+        pick = [b for b in blocks if any(d and d in b for d in descs)]
+        if not pick:
+            pick = [b for b in blocks if "Check for `cover`" not in b]
+        if not pick:
+            out["replay"] = {"status": "no-playback-test", "why": "kani printed no concrete playback test for the failing check"}
             return
-        test_src = m.group(1)
+        test_src = pick[0]
         tm = re.search(r"fn (kani_concrete_playback_\w+)", test_src)
         tname = tm.group(1) if tm else "kani_concrete_playback"
         # append to the harness module of the scratch source so the harness fn is in scope
